@@ -1,6 +1,8 @@
 import CstructModel.Sexp
 import CstructModel.Expr
-open Cstruct
+import CstructModel.Proto
+import CstructModel.Hexdump
+open Cstruct Cstruct.Proto
 
 def pairs? (s : Sexp) : Option (List (String × Int)) :=
   match s with
@@ -44,6 +46,105 @@ def handle (s : Sexp) : Sexp :=
         let (o2, r2) := o1.evaluate (mkEnv ctx2 consts tbl)
         .list [.atom "res", exprResult r1, exprResult r2, .list (o2.tokens.map .str)]
     | _, _, _, _ => .list [.atom "bad-args"]
+  -- (layout cfg T)
+  | .list [.atom "layout", c, t] =>
+    match parseCfg c, parseTy t with
+    | .ok cfg, .ok ty =>
+      match ty with
+      | .struct al fs =>
+        match structLayout cfg al fs with
+        | .ok (sz, a, offs) => .list [.atom "ok", optNat sz, .atom (toString a), .list (offs.map optNat)]
+        | .error e => errSexp e
+      | .union al fs => .list [.atom "ok", optNat (ty.size cfg), .atom (toString (Fields.maxAlign cfg fs 0)), .list []]
+      | _ => .list [.atom "ok", optNat (ty.size cfg), .atom (toString (ty.alignment cfg)), .list []]
+    | .error e, _ => .list [.atom "bad-args", .str e]
+    | _, .error e => .list [.atom "bad-args", .str e]
+  -- (read cfg T hexdata pos)
+  | .list [.atom "read", c, t, d, p] =>
+    match parseCfg c, parseTy t, d.hexBytes?, p.nat? with
+    | .ok cfg, .ok ty, some data, some pos =>
+      match ty with
+      | .struct al fs =>
+        match readStructWithSizes cfg al fs data pos with
+        | .ok (v, szs, p') => .list [.atom "ok", valToSexp v, .atom (toString p'),
+            .list (szs.map fun (n, k) => .list [.str n, .atom (toString k)])]
+        | .error e => errSexp e
+      | _ =>
+        match read cfg ty [] data pos with
+        | .ok (v, p') => .list [.atom "ok", valToSexp v, .atom (toString p'), .list []]
+        | .error e => errSexp e
+    | .error e, _, _, _ => .list [.atom "bad-args", .str e]
+    | _, .error e, _, _ => .list [.atom "bad-args", .str e]
+    | _, _, _, _ => .list [.atom "bad-args"]
+  -- (write cfg T V)
+  | .list [.atom "write", c, t, v] =>
+    match parseCfg c, parseTy t, parseVal v with
+    | .ok cfg, .ok ty, .ok val =>
+      match dumps cfg ty val with
+      | .ok bs => .list [.atom "ok", Sexp.ofBytes bs]
+      | .error e => errSexp e
+    | .error e, _, _ => .list [.atom "bad-args", .str e]
+    | _, .error e, _ => .list [.atom "bad-args", .str e]
+    | _, _, .error e => .list [.atom "bad-args", .str e]
+  -- (leb-write signed v) / (leb-read signed hex)
+  | .list [.atom "leb-write", sg, v] =>
+    match v.int? with
+    | some i => match lebWrite (sg.nat? != some 0) i with
+      | .ok bs => .list [.atom "ok", Sexp.ofBytes bs]
+      | .error e => errSexp e
+    | none => .list [.atom "bad-args"]
+  | .list [.atom "leb-read", sg, d] =>
+    match d.hexBytes? with
+    | some bs => match lebRead (sg.nat? != some 0) bs with
+      | .ok (v, rest) => .list [.atom "ok", .atom (toString v), .atom (toString (bs.length - rest.length))]
+      | .error e => errSexp e
+    | none => .list [.atom "bad-args"]
+  -- (resolve "name")
+  | .list [.atom "resolve", n] =>
+    match n.string? with
+    | some name => match resolve Gen.typeTable name with
+      | .ok (cn, k, sz, al) => .list [.atom "ok", .str cn, .str (reprStr k), optNat sz, optNat al]
+      | .error e => errSexp e
+    | none => .list [.atom "bad-args"]
+  -- (hexdump hexdata palette offset): palette = none | ((n "colour") ...)
+  | .list [.atom "hexdump", d, pal, off] =>
+    let palette : Option (Option (List (Int × String))) := match pal with
+      | .atom "none" => some none
+      | .list l => (l.mapM fun (p : Sexp) => match p with
+          | Sexp.list [n, Sexp.str c] => n.int?.map (·, c)
+          | _ => none).map some
+      | _ => none
+    match d.hexBytes?, palette, off.nat? with
+    | some data, some p, some o =>
+      let render (segs : List Hexdump.Seg) : String := String.join (segs.map fun s => match s with
+        | .text t => t
+        | .code "NORMAL" => "\x1b[1;0m"
+        | .code c => c)
+      .list (.atom "ok" :: (Hexdump.hexdump data p o).map fun l =>
+        .list [.atom (toString l.offset), .str (render l.values), .str (render l.chars)])
+    | _, _, _ => .list [.atom "bad-args"]
+  -- (pack v size|none le|be) (unpack hex size|none le|be sign) (swap v size)
+  | .list [.atom "pack", v, sz, e] =>
+    match v.int?, e with
+    | some i, .atom en =>
+      match Hexdump.pack i sz.nat? (if en = "le" then .little else .big) with
+      | some bs => .list [.atom "ok", Sexp.ofBytes bs]
+      | none => .list [.atom "err", .atom "Overflow"]
+    | _, _ => .list [.atom "bad-args"]
+  | .list [.atom "unpack", d, sz, e, sg] =>
+    match d.hexBytes?, e with
+    | some bs, .atom en =>
+      match Hexdump.unpack bs sz.nat? (if en = "le" then .little else .big) (sg.nat? != some 0) with
+      | some v => .list [.atom "ok", .atom (toString v)]
+      | none => .list [.atom "err", .atom "ValueError"]
+    | _, _ => .list [.atom "bad-args"]
+  | .list [.atom "swap", v, sz] =>
+    match v.int?, sz.nat? with
+    | some i, some s =>
+      match Hexdump.swap i s with
+      | some w => .list [.atom "ok", .atom (toString w)]
+      | none => .list [.atom "err", .atom "Error"]
+    | _, _ => .list [.atom "bad-args"]
   | _ => .list [.atom "bad-op"]
 
 partial def loop (h out : IO.FS.Stream) : IO Unit := do
